@@ -659,3 +659,6 @@
 ; ---- and the arguments)
 (declare-fun r_hash (Any Any) Int)
 (declare-fun r_equiv (Any Any Any) Bool)
+; the conversion that GetConversion (unsafe = false) / GetConversionUnsafe (true) answers for a pair of
+; types, nil.Func when there is none (assumed to be a function of the two types; C09)
+(declare-fun conv_fn (cty.Type cty.Type Bool) Func)
